@@ -223,17 +223,18 @@ def ob_expired(vc):
 def _saa_head(vc, v, entering):
     vc.stash("saa.entering", entering)
     if entering:
-        vc.stash("saa.element", (v["entry"], v["callback"], v["handle"]))
+        t = v["$target"]  # entry, (callback, handle)
+        vc.stash("saa.element", (t[0], t[1][0], t[1][1]))
 
 
 def _sa_modifies(vc, v):
-    return [v["self"].store[v["addr"]]]
+    return [v["self"].store[v["$target"]]]
 
 
 def _sa_head(vc, v, entering):
     vc.stash("sa.entering", entering)
     if entering:
-        vc.stash("sa.addr", v["addr"])
+        vc.stash("sa.addr", v["$target"])
 
 
 LOOPS = {
